@@ -62,7 +62,10 @@ def gen_case(rng, kind, n=None):
                 op["args"]["rpms"] = list(ops[-1]["args"]["rpms"])
             ops.append(op)
         else:
-            ops.append(F.gen_extra_op(rng))
+            op = F.gen_extra_op(rng)
+            if ops and rng.random() < 0.2:
+                op = json.loads(json.dumps(rng.choice(ops)))        # exactly the same record again: it is appended again
+            ops.append(op)
     comp = FC.gen_compose(rng)
     if comp["id"] == "<create>":
         comp["id"] = "X-1-%s%s.%d" % (comp["date"], domains.COMPOSE_TYPE_SUFFIX[comp["type"]], comp["respin"] % 100)
